@@ -35,7 +35,11 @@ RULE = ('corpus of boundary cases (minimal inputs of the three repaired defects:
         '10^k +- 1 for k <= 250, random bit lengths <= 256, both signs; keys beyond int64 / uint64 next to other keys), '
         'integer keys also given as NumPy integer scalars of every integer dtype; '
         'then a seeded random stream of nested dictionaries (depth <= 3), tables over 4-6 fields, '
-        'two-column cluster tables and parameter dictionaries. Non-trivial = a dictionary holding an '
+        'two-column cluster tables and parameter dictionaries; string cells of both table kinds are drawn from free '
+        'text as well: a line feed inside the cell (one, several, leading, trailing, next to the delimiter / quotes), '
+        'the other line boundaries of str.splitlines (VT FF FS GS RS NEL LS PS), control characters, non-ASCII text '
+        '(Latin-1, Greek, CJK, astral, NBSP, BOM, zero-width space), and - once the newline=\'\' repair of the '
+        'readers is in the tree (CR_CELLS) - CR and CR LF. Non-trivial = a dictionary holding an '
         'array, NumPy scalar or nested container / a table with a non-empty row / a non-empty '
         'parameter dictionary / a string of >= 2 characters; distinct = distinct abstract input.')
 EXHAUSTIVE = {'quick': True, 'thorough': True}
@@ -58,8 +62,9 @@ TRUSTED = ['oracles of the theorems (universally quantified records; hypotheses 
            'members gives the tree, the text is non-empty), base64 and buffers (b64decode(b64encode(b)) = b; '
            'np.frombuffer(np.ascontiguousarray(a).data, a.dtype) = the C-order elements of a; str(dtype) / '
            'np.dtype(name) as tabulated), the csv text layer (reading with the writing delimiter returns the written '
-           'cells, cells without NUL/CR/LF; the first line contains a tab iff delimiter is tab with >= 2 header '
-           'cells or a header cell contains a tab)',
+           'cells, cells without NUL - a cell may hold LF / CR, which csv quotes and the readers, opening the file '
+           'with newline=\'\', keep; the first line contains a tab iff delimiter is tab with >= 2 header '
+           'cells or a header cell contains a tab, header cells without NUL/CR/LF)',
            'repr(float) / float() as an oracle pair (record floatlayer, hypothesis Float_OK: the text of repr(x) is a '
            'float literal of the transcribed grammar whose correctly rounded value is x, int() rejects it, float '
            'characters only; satisfied by the reference pair = exact decimal expansion + exact conversion); the line '
@@ -78,8 +83,9 @@ ASSUMES = ['top-level keys: integers (any sign and magnitude; a Python int or a 
            'numeric dtypes = bool, (u)int8..64, float16/32/64 in either byte order, elements in the range of the '
            'dtype (complex and longdouble are not JSON numbers: outside the reading)',
            'tables: >= 2 columns, n_significant_figures >= 1, field names without tab / line break, string cells '
-           'non-empty, rejected by both int() and float(), without NUL / CR / LF (printable ASCII and tab in the '
-           'correspondence)',
+           'non-empty, rejected by both int() and float(), without NUL, encodable as UTF-8, and either plain ASCII '
+           'without FS GS RS US or holding a printable ASCII character outside the alphabet of numeric literals '
+           '(Spec.nonnumeric; CR only with the newline=\'\' repair, branch fix-c18-r5)',
            'parameter files: keys are lower-case ASCII identifiers that are not keywords; values are None, bool, int, '
            'finite float, str (any characters) and lists / string-keyed dicts of these',
            'every integer (key, value, cell, id) has at most 4300 decimal digits (|z| < 10^4300, the guard of C18_int_limit)']
